@@ -305,6 +305,16 @@ pub fn install_quiet_panic_hook() {
     }));
 }
 
+/// Overwrite the stack region the next call will use with a fixed pattern. A constructor, clone or
+/// conversion that leaves part of its result uninitialised (a union arm copied short, a field forgotten)
+/// otherwise picks up whatever the previous call left there - natively often the very bytes that belong
+/// there, which hides the defect. With the poison the missing part is deterministically wrong.
+#[inline(never)]
+pub fn poison_stack() {
+    let mut a = [0xA5u8; 12288];
+    std::hint::black_box(&mut a);
+}
+
 /// Run cipher code; a panic becomes `Err(message)`.
 pub fn guard<R>(f: impl FnOnce() -> R) -> Result<R, String> {
     match catch_unwind(AssertUnwindSafe(f)) {
@@ -787,6 +797,7 @@ impl<'a> World<'a> {
                     let slot = self.slots.alloc_packed(t.size, t.align, 0);
                     let p = self.slots.ptr(slot);
                     let ctor = if *fixed { t.new_fixed } else { t.new_from_slice };
+                    poison_stack();
                     match guard(|| unsafe { ctor(p, key) }) {
                         Ok(true) => {
                             if t.detect && self.mask {
@@ -845,6 +856,7 @@ impl<'a> World<'a> {
                     };
                     let slot = self.slots.alloc_packed(t.size, t.align, 0);
                     let (ps, pd) = (self.slots.ptr(r.slot), self.slots.ptr(slot));
+                    poison_stack();
                     match guard(|| unsafe { f(ps, pd) }) {
                         Ok(()) => {
                             if t.detect && self.mask {
@@ -897,6 +909,7 @@ impl<'a> World<'a> {
                         None => continue,
                     };
                     let (ps, pd) = (self.slots.ptr(rs.slot) as *const u8, self.slots.ptr(rd.slot));
+                    poison_stack();
                     if let Err(e) = guard(|| unsafe { f(ps, pd) }) {
                         return Err(self.viol("C12", "clone-from-panicked", d.fam, t.variant, e, &[], &[]));
                     }
@@ -957,6 +970,7 @@ impl<'a> World<'a> {
                     let (tsize, talign) = (self.reg.types[tty].size, self.reg.types[tty].align);
                     let slot = self.slots.alloc_packed(tsize, talign, 0);
                     let (ps, pd) = (self.slots.ptr(r.slot), self.slots.ptr(slot));
+                    poison_stack();
                     let res = if *by_ref {
                         guard(|| unsafe { (c.by_ref)(ps, pd) })
                     } else {
